@@ -295,6 +295,7 @@ type MemConn struct {
 	lateFailN   int
 	lateFailErr error
 	failN       int
+	failSkip    int
 	failErr     error
 }
 
